@@ -8,6 +8,11 @@ schema of the same name). Search: decode = value, eight re-encodings, every trun
 """
 
 
+def generate(ctx):
+    """(T) codec inventory regenerated from the anchored Go files: every type with a codec pair must have a schema."""
+    return ctx.run_extract("codecinv", [], out_lean="CodecInventory.lean")
+
+
 def run(ctx):
     ctx.level = "proof"
     ctx.assumptions += [
@@ -16,8 +21,9 @@ def run(ctx):
         "SideChain / RegisterSideChainParam are modelled in the post-fork format (ExtraInfo always written; config.EXTRA_INFO_HEIGHT_FORK_CHECK is false by default)",
         "Go runtime makeslice panics iff len > maxInt or len*elemsize > 2^48; allocations below that limit that exhaust memory are not modelled",
     ]
-    ctx.cov["trusted_base"] += ["harness hcodec/records (reflection-based renderer and generator) + drv_codec (correspondence check)",
+    ctx.cov["trusted_base"] += ["translator extract/codecinv (go/parser: lists the types with a codec pair in the anchored files)", "harness hcodec/records (reflection-based renderer and generator) + drv_codec (correspondence check)",
                                 "Lean compiler for the driver"]
+    generate(ctx)
     ctx.lean_props()
     hbin = ctx.build_harness("hcodec")
     drv = ctx.build_driver("drv_codec")
